@@ -112,7 +112,14 @@ class SymSeries(_RowsMixin, SymBase):
 
     @property
     def index(self):
-        return SymIndex(self.index_, self.valid, self.prov, self.order)
+        return SymIndex(self.index_, self.valid, self.prov, self.order, owner=self)
+
+    @index.setter
+    def index(self, value):
+        if isinstance(value, SymIndex) and value.prov == self.prov:
+            self.index_ = value.idx
+        else:
+            raise Unsupported("assigning a new index")
 
     @property
     def _constructor(self):
@@ -436,7 +443,7 @@ class SymSeries(_RowsMixin, SymBase):
         cols = [(iname, Col("i", [I(v) for v in self.index_.vals])), (sname, self.col)]
         return SymFrame(cols, self.valid, Idx.undefined(self.nslots), self.prov, self.order)
 
-    def squeeze(self):
+    def squeeze(self, axis=None):
         # used by TakeLast on `tail(1)`: a one-row series squeezes to a scalar, anything else stays a series
         n = count(self.valid)
         if decide(n == 1):
@@ -657,12 +664,18 @@ def _first_occurrence(keys, valid, order):
 class SymIndex(_RowsMixin, SymBase):
     ndim = 1
 
-    def __init__(self, idx: Idx, valid, prov, order=None):
-        self.idx, self.valid, self.prov, self.order = idx, list(valid), list(prov), order
+    def __init__(self, idx: Idx, valid, prov, order=None, owner=None):
+        self.idx, self.valid, self.prov, self.order, self.owner = idx, list(valid), list(prov), order, owner
 
     @property
     def name(self):
         return self.idx.name
+
+    @name.setter
+    def name(self, value):
+        self.idx = Idx(self.idx.vals, value, self.idx.defined, self.idx.labels)
+        if self.owner is not None:
+            self.owner.index_ = self.idx
 
     @property
     def names(self):
@@ -734,6 +747,9 @@ class SymIndex(_RowsMixin, SymBase):
     def _bin(self, other, op, reverse=False):
         s = self.to_series()
         return s._bin(other, op, reverse)
+
+    def isin(self, values):
+        return self.to_series().isin(values)
 
     def rename(self, name=None, **kw):
         return self._with(idx=Idx(self.idx.vals, name, self.idx.defined, self.idx.labels))
@@ -863,6 +879,13 @@ class SymFrame(_RowsMixin, SymBase):
     def columns(self):
         return pd.Index([k for k, _ in self.cols])
 
+    @columns.setter
+    def columns(self, value):
+        value = list(value)
+        if len(value) != len(self.cols):
+            raise StructuralError(f"Length mismatch: {len(self.cols)} columns, {len(value)} new labels")
+        self.cols = [(k, c) for k, (_, c) in zip(value, self.cols)]
+
     @property
     def labels(self):
         return [k for k, _ in self.cols]
@@ -873,7 +896,14 @@ class SymFrame(_RowsMixin, SymBase):
 
     @property
     def index(self):
-        return SymIndex(self.index_, self.valid, self.prov, self.order)
+        return SymIndex(self.index_, self.valid, self.prov, self.order, owner=self)
+
+    @index.setter
+    def index(self, value):
+        if isinstance(value, SymIndex) and value.prov == self.prov:
+            self.index_ = value.idx
+        else:
+            raise Unsupported("assigning a new index")
 
     def _row_attrs(self):
         return dict(valid=self.valid, index=self.index_, prov=self.prov, order=self.order)
@@ -1161,8 +1191,8 @@ class SymFrame(_RowsMixin, SymBase):
             raise Unsupported("set_index on nullable column")
         return SymFrame(cols, self.valid, Idx([c.num() for c in col.cells()], name, True), self.prov, self.order)
 
-    def squeeze(self):
-        if len(self.cols) == 1:
+    def squeeze(self, axis=None):
+        if len(self.cols) == 1 and axis is None:
             return self._series(self.labels[0]).squeeze()
         n = count(self.valid)
         if decide(n == 1):
@@ -1218,6 +1248,18 @@ class SymFrame(_RowsMixin, SymBase):
                 k.extend(self.order[i])
             keys.append(tuple(k))
         return self._with(order=keys, index=_undef_if(self.index_, ignore_index))
+
+    def sort_index(self, ascending=True, **kw):
+        if not self.index_.defined or self.index_.labels:
+            raise Unsupported("sort_index on undefined index")
+        keys = []
+        for i in range(self.nslots):
+            v = I(self.index_.vals[i])
+            k = [v if ascending else -v]
+            if self.order is not None and not isinstance(self.order, str):
+                k.extend(self.order[i])
+            keys.append(tuple(k))
+        return self._with(order=keys)
 
     def _n_extreme(self, n, columns, largest):
         columns = [columns] if not isinstance(columns, (list, tuple)) else list(columns)
@@ -1305,6 +1347,13 @@ def sym_concat(objs, ignore_index=False, axis=0, join="outer", **kw):
         return SymSeries(name, Col.from_cells(cells, kind), valid, index, prov, order)
     # frames: union of columns in first-seen order (join=outer), missing -> NaN
     labels_ = []
+    if all(o.labels == first.labels for o in objs) and len(set(first.labels)) != len(first.labels):
+        # identical (duplicated) label lists: pandas concatenates position-wise
+        cols = []
+        for ci, k in enumerate(first.labels):
+            cells = [c for o in objs for c in o.cols[ci][1].cells()]
+            cols.append((k, Col.from_cells(cells)))
+        return SymFrame(cols, valid, index, prov, order)
     for o in objs:
         if len(set(o.labels)) != len(o.labels):
             raise StructuralError(f"concat of frame with duplicated columns {o.labels}")
